@@ -94,6 +94,7 @@ func C03(c *Ctx) {
 	r.Rule("C03-a", "every call ast.New<Node>(pos, …) inside an on<Rule><n> method passes c.astPos() or a local whose only definition is c.astPos(); astPos returns ast.Pos{Line: c.pos.line, Col: c.pos.col, Off: c.pos.offset}")
 	r.Rule("C03-b", "precedence chain Expression→RecoveryExpr→ChoiceExpr→ActionExpr→SeqExpr→LabeledExpr→PrefixedExpr→SuffixedExpr→PrimaryExpr: refs(level i) ∩ chain ⊆ {level i+1} and contains it; refs(PrimaryExpr) ∩ chain = {Expression}, between \"(\" and \")\"")
 	r.Rule("C03-d", "operator-to-node mapping of the grammar actions: & → AndExpr, ! → NotExpr; ? → ZeroOrOneExpr, * → ZeroOrMoreExpr, + → OneOrMoreExpr; # → StateCodeExpr, & → AndCodeExpr, ! → NotCodeExpr; the operator rules accept exactly these characters; the operand / code block is stored in the constructed node; the recovery chain is built left-nested (Expr = chain so far)")
+	r.Rule("C03-f", "layout: `__` is a repetition over white space, line ends and both comment forms; `_` (no line end) is referenced by EOS only; in every syntactic rule of the grammar literal (a rule that reaches `__`) any two items that can match next to each other - adjacent items of a sequence, skipping items that may match nothing, and consecutive iterations of a repetition - are separated by a layout reference")
 	r.Rule("C03-e", "CharClassMatcher.parse keeps every member: each iteration of the reading loop that obtained a rune appends to chars or UnicodeClasses, each iteration of the extraction loop appends to Chars or Ranges")
 	r.Rule("C03-c", "RuleDefOp = {\"=\", \"<-\", U+2190, U+27F5}; SingleCharEscape ⊆ {a,b,f,n,r,t,v,\\}; CharClassMatcher.parse consumes x→2, u→4, U→8, octal→2 further digits, equal to the digit references of HexEscape / ShortUnicodeEscape / LongUnicodeEscape / OctalEscape")
 
@@ -228,6 +229,8 @@ func C03(c *Ctx) {
 		}
 		r.Check(okParen, "C03-b", "A.pigeon.go:PrimaryExpr-group", "", "pigeon.go", `Expression re-entered only as "(" __ Expression __ ")"`, "PrimaryExpr re-enters Expression outside a parenthesised group")
 	}
+	// ---- f
+	c03Layout(c, root)
 	// ---- d
 	c03Operators(c, g)
 	// ---- c
@@ -728,7 +731,7 @@ func flagMapping(c *Ctx, g *load.G, rule string) {
 			}
 			rv := recvName(fd)
 			T := rv + ".tok.lit"
-			forms := map[string]bool{`strings.HasSuffix(` + T + `,"i")`: true, "len(" + T + ")>0&&" + T + "[len(" + T + ")-1]=='i'": true}
+			forms := map[string]bool{`strings.HasSuffix(` + T + `,"i")`: true, "len(" + T + ")>0&&" + T + "[len(" + T + ")-1]=='i'": true, `res1(strings.CutSuffix(` + T + `,"i"))`: true}
 			okAll := true
 			for _, p := range c.pkgNorm("bootstrap").normPaths(fd) {
 				for _, e := range p {
